@@ -141,7 +141,13 @@ class _Message(object):
         source_name = self.source_file or "[prelude]"
         if not self.location.is_synthetic and self.source_file in source_code:
             source_lines = source_code[self.source_file].splitlines()
-            source_line = source_lines[self.location.start.line - 1]
+            # Errors at the end of the file (e.g., at the implicit Dedent tokens
+            # which close the final block) are located on the line just past the
+            # last line of the source; there is no source text to show for them.
+            if 1 <= self.location.start.line <= len(source_lines):
+                source_line = source_lines[self.location.start.line - 1]
+            else:
+                source_line = ""
         else:
             source_line = ""
         lines = self.message.splitlines()
